@@ -90,7 +90,9 @@ IPCP_ALPHA = ([opt(3, v) for v in (ASSIGNED, "00000000", "0a000006", "0a000105",
               [opt(129, v) for v in ("00000000", "08080808", "01010101", "", "000000", "0000000000")] +
               [opt(131, v) for v in ("00000000", "08080404", "0000", "00000000000000")] +
               [opt(1, "0a0000050a000001"), opt(2, "002d0f01"), opt(2, ""), opt(130, "00000000"), opt(132, ASSIGNED),
-               opt(0, ""), opt(4, ASSIGNED), opt(99, "00" * 9), opt(255, "ab" * 253)])
+               opt(0, ""), opt(4, ASSIGNED), opt(99, "00" * 9),
+               opt(3, "0a010005"), opt(3, "0b000005"),       # near misses in the upper bytes
+               opt(255, "ab" * 253)])
 
 LCP_MAGICS = [0, 1, 0xdeadbeef, 0xffffffff]
 LCP_ALPHA_FIXED = ([opt(1, v) for v in ("05d4", "05dc", "0040", "003f", "0000", "ffff", "", "05", "05d400")] +
@@ -101,7 +103,8 @@ LCP_ALPHA_FIXED = ([opt(1, v) for v in ("05d4", "05dc", "0040", "003f", "0000", 
 
 
 def lcp_alpha(magic):
-    vals = {magic, 0, (magic + 1) % 2**32, (magic - 1) % 2**32, 0x12345678}
+    vals = {magic, 0, (magic + 1) % 2**32, (magic - 1) % 2**32, 0x12345678, magic ^ 0x01000000, magic ^ 0x00010000,
+            magic ^ 0x00000100}
     a = [opt(5, "%08x" % v) for v in sorted(vals)]
     a += [opt(5, ""), opt(5, "%08x" % magic + "00"), opt(5, ("%08x" % magic)[:6])]
     return a + LCP_ALPHA_FIXED
@@ -112,7 +115,8 @@ V6_LOCALS = ["0000000000000000", "5054fffe112233aa", "ffffffffffffffff"]
 
 def v6_alpha(local):
     near = "%016x" % (int(local, 16) ^ 1)
-    vals = {local, "0000000000000000", near, "0200000000000001", "0000000000000001"}
+    vals = {local, "0000000000000000", near, "0200000000000001", "0000000000000001",
+            "%016x" % (int(local, 16) ^ (1 << 56)), "%016x" % (int(local, 16) ^ (1 << 24)), "0200000000000000"}
     a = [opt(1, v) for v in sorted(vals)]
     a += [opt(1, ""), opt(1, local[:14]), opt(1, local + "00"), opt(1, "00" * 7), opt(1, "00" * 9),
           opt(2, "0000"), opt(0, local), opt(3, local), opt(255, "cd" * 253)]
@@ -167,6 +171,78 @@ def gen_cases(rng, tier, budget):
         for n in range(0, L + 1):
             for t in itertools.product(alpha, repeat=n):
                 cases.append("v6 %s %s" % (loc, olist(t)))
+    # ---- domain block: every byte of every compared value decides on its own.  For several assigned addresses /
+    #      magic numbers / interface identifiers: proposals that differ from it in exactly ONE byte (each byte in
+    #      turn, low bit and high bit), and identifiers with exactly one non-zero byte (each position)
+    def flips(hexv):
+        n = len(hexv) // 2
+        for i in range(n):
+            for bit in (0x01, 0x80):
+                b = bytearray.fromhex(hexv)
+                b[i] ^= bit
+                yield b.hex()
+    dom_addrs = [ASSIGNED, "c0a80a01", "64400001", "01020304", rhex(rng, 4), rhex(rng, 4)]
+    for a in dom_addrs:
+        if a == "00000000":
+            continue
+        for prop in flips(a):
+            cases.append("ipcp %s 08080808 08080404 %s" % (a, olist([opt(3, prop)])))
+            cases.append("fsm i %s d d 6 9 %s" % (a, wire([opt(3, prop)])))
+        cases.append("ipcp %s 08080808 08080404 %s" % (a, olist([opt(3, p) for p in flips(a)] + [opt(3, a)])))
+        cases.append("sess %s %s k" % (MAPPED + a, " ".join("q%d.%s" % (i, wire([opt(3, p)])) for i, p in enumerate(flips(a)))
+                                        + " q99." + wire([opt(3, a)])))
+        cases.append("lns %s %s k" % (MAPPED + a, " ".join("q%d.%s" % (i, wire([opt(3, p)])) for i, p in enumerate(flips(a)))
+                                       + " q99." + wire([opt(3, a)])))
+    # DNS: the Nak must carry the server configured for THAT option (primary vs secondary, every byte)
+    for d1, d2 in (("01020304", "05060708"), (rhex(rng, 4), rhex(rng, 4))):
+        cases.append("ipcp %s %s %s %s" % (ASSIGNED, d1, d2, olist([opt(129, "00000000"), opt(131, "00000000")])))
+        cases.append("ipcp %s %s %s %s" % (ASSIGNED, d2, d1, olist([opt(131, "00000000"), opt(129, "00000000")])))
+    dom_magics = [0xdeadbeef, 0x00000001, 0x80000000, 0x00010000, rng.randrange(1, 2**32)]
+    for m in dom_magics:
+        mh = "%08x" % m
+        for prop in flips(mh):
+            cases.append("lcp %d %s" % (m, olist([opt(5, prop)])))
+        cases.append("lcp %d %s" % (m, olist([opt(5, p) for p in flips(mh)] + [opt(5, mh)])))
+        cases.append("fsm l %d 6 9 %s" % (m, wire([opt(5, mh)])))
+    dom_iids = ["5054fffe112233aa", "0200000000000001", rhex(rng, 8)]
+    for l in dom_iids:
+        for prop in flips(l):
+            if prop != "00" * 8:
+                cases.append("v6 %s %s" % (l, olist([opt(1, prop)])))
+        cases.append("v6 %s %s" % (l, olist([opt(1, p) for p in flips(l) if p != "00" * 8] + [opt(1, l)])))
+        for i in range(8):
+            one = "00" * i + "40" + "00" * (7 - i)
+            cases.append("v6 %s %s" % (l, olist([opt(1, one)])))
+        cases.append("fsm 6 %s 6 9 %s" % (l, wire([opt(1, l)])))
+    # the MAC-derived identifier: every byte of the BNG MAC in turn
+    for i in range(6):
+        mac = bytearray.fromhex("525400112233")
+        mac[i] ^= 0xa5
+        cases.append("s6 %s e1 q2.%s k" % (mac.hex(), wire([opt(1, "0200000000000001")])))
+    # ---- two objects alive at the same time with different configurations (no state may be shared)
+    for (x, y) in ((ASSIGNED, "c0a80a01"), ("c0a80a01", ASSIGNED), (ASSIGNED, "n")):
+        for ops in (["0q" + opt(3, x), "1q" + opt(3, x), "0q" + opt(3, y if y != "n" else "06060606"),
+                     "1q" + opt(3, y if y != "n" else "06060606")],
+                    ["1P" + ("0a000009"), "0q" + opt(3, x), "0q" + opt(3, "0a000009"), "1q" + opt(3, "0a000009")],
+                    ["0j" + opt(129, "08080808"), "1q" + opt(129, "00000000"), "0q" + opt(129, "00000000"),
+                     "0n" + opt(3, "06060606"), "1q" + opt(3, x)]):
+            cases.append("hh i %s d d | %s d d | %s" % (x, y, " ".join(ops)))
+    for (x, y) in ((0xdeadbeef, 0x01020304), (0x01020304, 0xdeadbeef)):
+        ops = ["0q" + opt(5, "%08x" % x), "1q" + opt(5, "%08x" % x), "0q" + opt(5, "%08x" % y), "1q" + opt(5, "%08x" % y),
+               "0j" + opt(5, "%08x" % x), "1q" + opt(5, "%08x" % y), "0M7", "1q" + opt(5, "00000007"), "0q" + opt(5, "00000007")]
+        cases.append("hh l %d | %d | %s" % (x, y, " ".join(ops)))
+    for (x, y) in (("5054fffe112233aa", "0200000000000002"),):
+        ops = ["0q" + opt(1, x), "1q" + opt(1, x), "0q" + opt(1, y), "1q" + opt(1, y), "0n" + opt(1, y), "1q" + opt(1, y),
+               "0q" + opt(1, y)]
+        cases.append("hh 6 %s | %s | %s" % (x, y, " ".join(ops)))
+    nhh = 150 if quick else 1500
+    for _ in range(nhh):
+        x, y = rng.choice(dom_addrs), rng.choice(dom_addrs + ["n"])
+        pool = ["q" + opt(3, x), "q" + opt(3, y if y != "n" else "06060606"), "q" + opt(3, "00000000"), "q-",
+                "P" + rng.choice(dom_addrs), "n" + opt(3, "06060606"), "j" + opt(3, x), "q" + opt(129, "00000000"),
+                "D01010101/n", "a" + opt(129, "02020202")]
+        ops = [rng.choice("01") + rng.choice(pool) for _ in range(rng.choice([3, 5, 8]))]
+        cases.append("hh i %s d d | %s 08080808 08080404 | %s" % (x, y, " ".join(ops)))
     # ---- random long lists, several requests per instance
     nrand = (budget or 1500) if quick else (budget or 30000)
     for _ in range(nrand):
@@ -345,8 +421,17 @@ def gen_cases(rng, tier, budget):
     bad_aaas = [MAPPED + "00000000", V6, "00" * 16]
     for i in range(nsess):
         aaa = rng.choice(bad_aaas) if i % 8 == 7 else rng.choice(aaas)
+        if i % 8 == 5:
+            aaa = MAPPED + rng.choice(["c0a80a01", "64400001", "%02x%s" % (rng.randrange(1, 224), rhex(rng, 3))])
         assigned = "0a000007" if aaa == "none" else aaa[-8:]     # no AAA address: IPCP is not started at all
-        reqs = [[], [opt(3, assigned)], [opt(3, assigned)], [opt(3, "00000000")], [opt(3, "0a000006")],
+        if aaa != "none" and aaa not in bad_aaas:
+            nb = bytearray.fromhex(assigned)
+            nb[rng.randrange(4)] ^= rng.choice([1, 0x80, 0x10])
+            near = nb.hex()
+        else:
+            near = "0a000106"
+        reqs = [[], [opt(3, assigned)], [opt(3, assigned)], [opt(3, "00000000")], [opt(3, "0a000006")], [opt(3, near)],
+                [opt(3, near), opt(3, assigned)],
                 [opt(3, "06060606")], [opt(129, "00000000")], [opt(129, "01010101"), opt(131, "00000000")],
                 [opt(3, assigned), opt(129, "08080808")], [opt(3, assigned), opt(129, "00000000")],
                 [opt(2, "002d0f01"), opt(3, assigned)], [opt(3, assigned[:6])], [opt(3, assigned), opt(3, "0a000006")],
@@ -423,7 +508,7 @@ def gen_cases(rng, tier, budget):
     v6reqs = [[opt(1, "0200000000000001")], [opt(1, "00" * 8)], [opt(1, "505400fffe112233")], [], [opt(1, "0102")],
               [opt(2, "0000"), opt(1, "0200000000000001")]]
     for i in range(ns6):
-        mac = rng.choice(["525400112233", "525400112233", "020000000000", "02" + rhex(rng, 5)])
+        mac = rng.choice(["525400112233", "525400112233", "020000000000", "02" + rhex(rng, 5), rhex(rng, 6)])
         evs = []
         for _ in range(rng.choice([1, 2, 3, 5, 8])):
             r = rng.random()
@@ -846,6 +931,8 @@ def nontrivial(case, out):
         return "A=- N=- R=-" != out.split(" ; ")[0]
     if k in ("hi", "hl", "h6"):
         return "A=" in out and len(case.split()) > (5 if k == "hi" else 3)
+    if k == "hh":
+        return "A=" in out
     if k == "fsm":
         return not out.startswith("- ;")
     if k == "pa":
@@ -910,7 +997,7 @@ def shrink(case):
 
 
 def distribution(cases, impl):
-    d = {"ipcp": 0, "lcp": 0, "v6": 0, "hi": 0, "hl": 0, "h6": 0, "history_ops": 0, "sess_reauth": 0, "fsm": 0, "sess": 0, "lns": 0, "s6": 0, "s6_echo": 0, "sl": 0, "sl_echo": 0, "sl_restored": 0, "l6": 0, "ll": 0, "timeouts": 0, "pa": 0, "pa_reject": 0, "exhaust": 0, "sess_alloc": 0, "sess_conflict": 0, "options_classified": 0, "acked": 0, "nakked": 0,
+    d = {"ipcp": 0, "lcp": 0, "v6": 0, "hi": 0, "hl": 0, "h6": 0, "history_ops": 0, "sess_reauth": 0, "fsm": 0, "sess": 0, "lns": 0, "s6": 0, "s6_echo": 0, "sl": 0, "sl_echo": 0, "sl_restored": 0, "l6": 0, "ll": 0, "timeouts": 0, "pa": 0, "pa_reject": 0, "exhaust": 0, "hh": 0, "sess_alloc": 0, "sess_conflict": 0, "options_classified": 0, "acked": 0, "nakked": 0,
          "rejected": 0, "fsm_sca": 0, "fsm_scn": 0, "fsm_scj": 0, "fsm_silent": 0, "sess_opened": 0,
          "max_options_in_request": 0, "panic_or_hang": 0}
     for c, o in zip(cases, impl):
